@@ -180,6 +180,18 @@ var specs = map[string]spec{
 		},
 		Assumptions: commonAssumptions, Plain: true, QuickStride: 4, ThoroughStride: 1, QuickDeadline: 420, ThoroughDeadline: 3000,
 	},
+	"C19": {
+		LevelText: "exhaustive enumeration of fault placements: 14 fault kinds appended to or replacing every line of 4 valid multi-line files, with LF and CRLF line endings; faults inside quoted attribute expressions on every line; and render failures (4 failing prints) on every line offset, inside 5 block kinds and 0-3 calls deep across two files; the position carried by the error (file, line) and its echo in the message text are compared with the known fault line",
+		LevelNote: "for faults that can only be noticed later (unterminated string/comment/tag/literal/soydoc) any line from the fault line to the end of input is accepted; for render errors any line on the path from the enclosing command in the entry template to the failing command is accepted; placements that happen to be valid (inside a comment or literal) are skipped",
+		Technique: "exhaustive enumeration of fault positions with a position oracle known by construction",
+		Level:     "model_checking",
+		Rule:      "a state is a (file, line ending, line, fault, placement) tuple; a transition is one parse or compile+render; non-trivial = the mutated input produced an error whose position was checked",
+		Bounds: map[string]string{
+			"quick":    "4 files (11-19 lines) x 2 line endings x every line x 14 faults x 2 placements; 7 lines x 5 attribute faults x 2 endings; 2 endings x depth 0-3 x 6 paddings x 5 block kinds x 4 failing prints",
+			"thorough": "same",
+		},
+		Assumptions: commonAssumptions, Plain: true, QuickStride: 1, ThoroughStride: 1, QuickDeadline: 420, ThoroughDeadline: 3000,
+	},
 	"C05": {
 		LevelText: "bounded exhaustive exploration of the real parser: every input of the stated small scopes is parsed under a controlled scheduler with a deterministic linear fuel bound (no wall clock), and small inputs under every parser/scanner interleaving up to 2 preemptions; termination, no panic, no deadlock and tree-xor-error are checked on every execution and every case is replayed on the uninstrumented build",
 		LevelNote: "assumes the bounded scopes are representative (small-scope hypothesis) and that the overlay instrumentation preserves behaviour (cross-checked case by case against the plain build)",
